@@ -56,7 +56,12 @@ def _case(draw, kind):
         if draw(st.booleans()):
             case['psi'] = draw(st.integers(1, m))
         else:
-            case['psi'] = {'form': 'tuple', 'v': [draw(st.integers(0, m)) for _ in range(4)]}
+            v = [draw(st.integers(0, m)) for _ in range(4)]
+            if draw(st.booleans()):
+                # lopsided relaxations (some entries zero): d(a, b) != d(b, a), so any engine that reorders a pair shows
+                mask = draw(st.integers(1, 14))
+                v = [x if (mask >> i) & 1 else 0 for i, x in enumerate(v)]
+            case['psi'] = {'form': 'tuple', 'v': v}
     if kind == 'omp':
         case['threads'] = draw(st.sampled_from(THREADS))
     else:
